@@ -111,7 +111,10 @@ Definition c11_check (kind : N) (L : layout) (f : fault) (want : N) (forced : bo
   linkedb 0 blocks &&
   (* a handler call that failed is the cause, whatever else (e.g. the stop block) came with it *)
   let failed_call := match f with FHandler n => negb (kind =? 3) && Nat.ltb n (length calls) | _ => false end in
-  if failed_call then negb forced && (err =? want) && negb (want =? 0) else
+  (* ... and it is the LAST call: "the handler is not called again afterwards" (W1 conclusion audit: this clause used
+     to be left to the correspondence bit, c11_bound) *)
+  let failed_is_last := match f with FHandler n => Nat.eqb (length calls) (S n) | _ => true end in
+  if failed_call then negb forced && (err =? want) && negb (want =? 0) && failed_is_last else
   match err with
   | 0 => forced && match rest with [] => true | _ => false end
   | 1 => negb (l_stop L =? 0) && negb forced && forallb (fun b => l_stop L <? b_num b) rest
